@@ -1,38 +1,53 @@
 /-
-Model/GroupDeadlines.lean — the coordinator requests of the consumer-group `run` goroutine and of a generation's
-functions, and what ends them when the coordinator has stopped answering (core Lean only).
-
-`Model/GroupRun.lean` reports the answer of a coordinator request as an event.  A request that is blocked in the socket
-does not observe `cg.done` / the generation's context: against a silent coordinator it returns only through the deadline
-`timeoutCoordinator` arms on the connection before every request (Gen fact `coordinatorCallsHaveDeadline`), and then
-as a local failure (`Err.net`), never as an answer.
-
-`stepSilentG f` is `Group.step` against a coordinator that accepts connections and reads requests but never answers.
+Model/GroupDeadlines.lean — how long the group waits for each coordinator answer (consumergroup.go `timeoutCoordinator`,
+`makeConnect`).  The coordinator may hold a JoinGroup answer for up to the rebalance time-out (it waits for the other
+members) and a SyncGroup answer for up to the session time-out (it waits for the leader); every other answer is due
+within `Timeout`.  An answer that does not arrive in time fails the call — for a heartbeat that is "a heartbeat fails",
+which ends the generation.
 -/
-import KafkaVerif.Model.GroupRun
 namespace KV.Group
 
-/-- `some true`: the event is an answer sent by the coordinator; `some false`: the request failed locally (deadline,
-broken connection); `none`: not the return of a coordinator request -/
-def Ev.coordAnswer : Ev → Option Bool
-  | .findRes e => some (e != some .net)
-  | .partsRes e => some (e != some .net)
-  | .fetchRes e => some (e != some .net)
-  | .joinOk _ _ _ _ => some true
-  | .joinErr _ e => some (e != .net)
-  | .syncRes _ _ e => some (e != some .net)
-  | .leaveRes _ ok => some ok
-  | .hbRet _ e => some (e != some .net)
-  | .watchParts _ _ _ => some true
-  | .watchErr _ _ e => some (e != .net)
-  | _ => none
+inductive CoordCall
+  | findCoordinator | joinGroup | syncGroup | heartbeat | leaveGroup | offsetFetch | offsetCommit | readPartitions
+  deriving DecidableEq, Repr
 
-/-- one step against a coordinator that has stopped answering; `f` = every coordinator request is made under a
-connection deadline -/
-def stepSilentG (f : Bool) (c : Cfg) (s : St) (e : Ev) : Option St :=
-  match e.coordAnswer with
-  | some true => none
-  | some false => if f then step c s e else none
-  | none => step c s e
+def CoordCall.all : List CoordCall :=
+  [.findCoordinator, .joinGroup, .syncGroup, .heartbeat, .leaveGroup, .offsetFetch, .offsetCommit, .readPartitions]
+
+def CoordCall.name : CoordCall → String
+  | .findCoordinator => "findCoordinator" | .joinGroup => "joinGroup" | .syncGroup => "syncGroup"
+  | .heartbeat => "heartbeat" | .leaveGroup => "leaveGroup" | .offsetFetch => "offsetFetch"
+  | .offsetCommit => "offsetCommit" | .readPartitions => "readPartitions"
+
+/-- the three configured durations (ms): `Timeout`, `RebalanceTimeout`, `SessionTimeout` -/
+structure Timeouts where
+  timeout : Nat
+  rebalance : Nat
+  session : Nat
+
+def callDeadline (t : Timeouts) : CoordCall → Nat
+  | .joinGroup => t.timeout + t.rebalance
+  | .syncGroup => t.timeout + t.session
+  | _ => t.timeout
+
+/-- an answer held for `held` ms is accepted iff it arrives before the call's deadline -/
+def answered (t : Timeouts) (c : CoordCall) (held : Nat) : Bool := decide (held < callDeadline t c)
+
+/-- the same table by field name of `timeoutCoordinator` (sorted), for the comparison with the source -/
+def deadlineTerms : CoordCall → List String
+  | .joinGroup => ["rebalanceTimeout", "timeout"]
+  | .syncGroup => ["sessionTimeout", "timeout"]
+  | _ => ["timeout"]
+
+/-- which config field feeds which field of the `timeoutCoordinator` that `makeConnect` builds -/
+def connectFields : List (String × String) :=
+  [("rebalanceTimeout", "RebalanceTimeout"), ("sessionTimeout", "SessionTimeout"), ("timeout", "Timeout")]
+
+/-- Requests needed to obtain the first generation when the FIRST JoinGroup answer is held `joinHeld` ms and the FIRST
+SyncGroup answer `syncHeld` ms (every other answer is immediate): a call given up is followed by a fresh join. -/
+def requestsForFirstGeneration (t : Timeouts) (joinHeld syncHeld : Nat) : Nat × Nat :=
+  let j := if answered t .joinGroup joinHeld then 0 else 1
+  let s := if answered t .syncGroup syncHeld then 0 else 1
+  (1 + j + s, 1 + s)
 
 end KV.Group
